@@ -564,3 +564,7 @@ _add(
     m("status-memo-not-dropped-on-expire", D, "    event.listen(_model, \"expire\", _forget_status)\n", "", "C33.5"),
     m("job-init-does-not-initialise-memo", D, "    def __init__(self, *args, **kwargs):\n        super().__init__(*args, **kwargs)\n        self._load()\n\n    @reconstructor\n    def _load(self) -> None:\n        self._status: str | None = None\n\n    def __repr__(self) -> str:\n        return \"Job(", "    @reconstructor\n    def _load(self) -> None:\n        self._status: str | None = None\n\n    def __repr__(self) -> str:\n        return \"Job(", "C33.5"),
 )
+_add(
+    "C25",
+    m("rollback-walks-valid-parents-only", D, "            .filter(Handle.fullname == handle.__handle__.fullname)\n            .all()", "            .filter(Handle.fullname == handle.__handle__.fullname, Handle.is_valid.is_(True))\n            .all()", "C25.3"),
+)
